@@ -1199,6 +1199,8 @@ class Interp:
         if isinstance(obj, ListCell):
             if name == "append":
                 (x,) = args
+                if isinstance(obj.items, Opaque):
+                    return None  # content not tracked
                 if isinstance(obj.items, list):
                     obj.items.append(x)
                 else:
@@ -1514,13 +1516,17 @@ class Interp:
             ctx.assume(z3.And(0 <= idx, idx <= n))
         assume_inv(idx)
         head_snapshot, head_memo = clone_graph(dict(fr.locals))
+        n_head_events = len(ctx.trace)
         # 3. does the loop continue?
         if is_for:
             cont = ctx.decide(idx < n)
         else:
             cont = self.branch(self.ev(s.test, fr))
         if not cont:
-            return  # falls through to the code after the loop with inv ∧ ¬cond
+            # falls through to the code after the loop with inv ∧ ¬cond; what the iterations emitted is
+            # summarised by the loop's body_post obligations, the trace only records that a loop ran
+            ctx.event("loop_summary", loop=name)
+            return
         variant0 = spec.variant(self, Roots(dict(fr.locals)), idx, n) if spec.variant else None
         if is_for:
             self.assign(s.target, item_at(idx), fr)
@@ -1531,6 +1537,10 @@ class Interp:
         except ContinueSig:
             pass
         nxt = idx + 1 if is_for else None
+        if spec.body_post is not None:
+            head = Roots(head_snapshot)
+            for lbl, f in spec.body_post(self, pre, head, Roots(dict(fr.locals)), ctx.trace[n_head_events:], idx):
+                ctx.oblige(f"{name}::loop-body::{lbl}", f, kind="loop-body", line=s.lineno, props=spec.props)
         inv_at(nxt, "preserve", "loop-inv-preserve")
         if spec.variant:
             v1 = spec.variant(self, Roots(dict(fr.locals)), nxt, n)
@@ -1683,7 +1693,8 @@ _MISSING = object()
 
 
 class LoopSpec:
-    def __init__(self, invariant, modifies=(), variant=None, local_types=None, props=()):
+    def __init__(self, invariant, modifies=(), variant=None, local_types=None, props=(), body_post=None):
+        self.body_post = body_post  # (interp, pre, head, env_after, events_of_body, idx) -> [(label, formula)]
         self.invariant = invariant  # (interp, pre, env, idx, n) -> [(label, formula)]
         self.modifies = list(modifies)
         self.variant = variant
